@@ -94,7 +94,8 @@ def ours_forked(option, path):
             except BaseException as e:      # noqa: BLE001
                 rc = 70
                 out.write('\n<<uncaught %s: %s>>\n' % (type(e).__name__, e))
-            os.write(w, pickle.dumps((rc, out.getvalue(), sys.stderr.getvalue())))
+            # what the real process would put on a UTF-8 stdout, read back the way the oracle's bytes are (latin-1)
+            os.write(w, pickle.dumps((rc, out.getvalue().encode('utf-8', 'backslashreplace').decode('latin-1'), sys.stderr.getvalue())))
         finally:
             os._exit(0)
     os.close(w)
@@ -132,7 +133,14 @@ def compare(option, path, image_has=(), runner=ours_forked, probe=None):
     rc2, out2, err2 = runner(option, path)
     if rc2 != 0:
         return 'ours-failed', 'readelf.py exit %s: %s' % (rc2, (err2 or out2)[-300:])
-    ok, msg = compare_output(out, out2)
+    try:
+        ok, msg = compare_output(out, out2)
+    except ValueError as e:
+        # the project's comparison function assumes a numeric last field on DW_AT_const_value lines that ALREADY differ: it is a mismatch on such a line
+        l1 = [''.join(x.lower().split()) for x in out.splitlines() if x.strip()]
+        l2 = [''.join(x.lower().split()) for x in out2.splitlines() if x.strip()]
+        d = next((i for i, (a, b) in enumerate(zip(l1, l2)) if a != b), min(len(l1), len(l2)))
+        ok, msg = False, 'Mismatch near line #%d (comparison function raised %s):\n>>%s<<\n>>%s<<' % (d, e, l1[d] if d < len(l1) else '', l2[d] if d < len(l2) else '')
     return ('match', '') if ok else ('mismatch', msg[:600])
 
 
